@@ -204,7 +204,7 @@ fn generate_inner(id: &str, tier: &str, r: u64, rng: &mut Rng) -> Value {
             ("C14", 5) | ("C14", 13) => return crate::sysim::generate_family("abandon", id, tier, rng),
             ("C16", 9) => return crate::sysim::generate_family("same-content", id, tier, rng),
             ("C02", 3) | ("C02", 11) | ("C05", 7) | ("C09", 5) | ("C17", 3) => return crate::sysim::generate_family("own-writes", id, tier, rng),
-            ("C20", 6) | ("C16", 4) | ("C14", 9) => return crate::sysim::generate_family("abandon-chunk", id, tier, rng),
+            ("C20", 6) | ("C16", 4) | ("C14", 9) | ("C08", 7) => return crate::sysim::generate_family("abandon-chunk", id, tier, rng),
             _ => {}
         }
     }
